@@ -14,6 +14,7 @@ import Resonate.Proofs.SysDb
 import Resonate.Proofs.AllYieldsK
 import Resonate.Proofs.Responds
 import Resonate.Proofs.Productive
+import Resonate.Proofs.NoStoreAssert
 import Resonate.Properties.C06
 namespace Resonate
 open Coro SqlSpec
@@ -197,6 +198,16 @@ theorem dispOf_spec (tid : String) : ∀ (subs : List Subm) (b : Nat) (e : SubId
     · obtain ⟨h1, h2, h3, h4, h5⟩ := ih _ _ h
       refine ⟨h1, by omega, by simp only [List.length_cons]; omega, ⟨fun hq => by omega, h4⟩, List.mem_cons_of_mem _ h5⟩
 
+/-- the shape of every transaction the coroutines yield: ids as `KOk` wants them, and no command that trips an
+    assertion of the store (`NA`) -/
+def KN (tx : List Cmd) : Prop := KOk tx ∧ NA tx
+
+theorem kn_req (env : Env) (r : Req) (t0 t : Time) (h : r.StateOk) : AllYields KN (r.body env t0 t) :=
+  AllYields.and (ak_req env r t0 t) (na_req env r t0 t h)
+
+theorem kn_bg (env : Env) (k : BgKind) (t : Time) : AllYields KN (k.body env t) :=
+  AllYields.and (ak_bg env k t) (na_bg env k t)
+
 /-! ### threads -/
 
 /-- an assertion event: a `util.Assert` / nil dereference site reached by a coroutine, or a request coroutine that
@@ -209,7 +220,7 @@ def Event.isAssert : Event → Bool
     whose transactions have the shape `KOk` -/
 structure Static (d : Dialect) (th : Thread) : Prop where
   np : ∀ t lo now, t ≤ now → NoPanic d lo now (th.restart t)
-  ak : ∀ t, AllYields KOk (th.restart t)
+  ak : ∀ t, AllYields KN (th.restart t)
   rs : th.isBg = none → ∀ t, Resp1 (th.restart t)
   dp : ∀ t, Depth maxDepth (th.restart t)
   qk : ∀ t, Quick 1 (th.restart t)
@@ -219,7 +230,7 @@ structure TInv (d : Dialect) (db : Db) (P : List (SubId × Subm)) (Q : List (Sub
   static : Static d th
   resp : th.isBg = none → Resp1 th.co
   dp : Depth maxDepth th.co
-  blocked : ∃ subs k lo now base, th.co = .yield subs k ∧ subs ≠ [] ∧ NoPanic d lo now (.yield subs k) ∧ AllYields KOk (.yield subs k) ∧
+  blocked : ∃ subs k lo now base, th.co = .yield subs k ∧ subs ≠ [] ∧ NoPanic d lo now (.yield subs k) ∧ AllYields KN (.yield subs k) ∧
      PromMono lo db ∧ now ≤ clk ∧ th.nextSeq = base + subs.length ∧ SlotsOk (AnswerOne d lo db) base subs th.slots ∧
      (∀ e ∈ P, e.1.tid = th.tid → SubOk base subs e.1.seq e.2 ∧ e.1.seq < th.nextSeq) ∧
      (∀ e ∈ Q, e.1.tid = th.tid → CplOk (AnswerOne d lo db) base subs e.1.seq e.2 ∧ e.1.seq < th.nextSeq)
@@ -228,7 +239,7 @@ structure TInv (d : Dialect) (db : Db) (P : List (SubId × Subm)) (Q : List (Sub
 structure Runnable (d : Dialect) (db : Db) (P : List (SubId × Subm)) (Q : List (SubId × Cpl)) (t : Time) (th : Thread) : Prop where
   static : Static d th
   np : NoPanic d db t th.co
-  ak : AllYields KOk th.co
+  ak : AllYields KN th.co
   pend : ∀ e ∈ P, e.1.tid = th.tid → e.1.seq < th.nextSeq
   cq : ∀ e ∈ Q, e.1.tid = th.tid → e.1.seq < th.nextSeq
   rs : th.isBg = none → Resp1 th.co
@@ -237,7 +248,7 @@ structure Runnable (d : Dialect) (db : Db) (P : List (SubId × Subm)) (Q : List 
 theorem run_spec (d : Dialect) (db : Db) (P : List (SubId × Subm)) (Q : List (SubId × Cpl)) (t : Time) :
     ∀ (fuel : Nat) (th : Thread), Runnable d db P Q t th →
       (∀ e ∈ (th.run t fuel).2.1, e.isAssert = false) ∧
-      (∀ e ∈ (th.run t fuel).2.2.1, e.1.tid = th.tid ∧ ∀ tx, e.2 = .store tx → KOk tx) ∧
+      (∀ e ∈ (th.run t fuel).2.2.1, e.1.tid = th.tid ∧ ∀ tx, e.2 = .store tx → KN tx) ∧
       ((th.run t fuel).2.2.2 = none → ∀ x, (th.run t fuel).1 = some x → x.tid = th.tid ∧ TInv d db (P ++ (th.run t fuel).2.2.1) Q t x) ∧
       (∀ n, Quick n th.co → n + 1 ≤ fuel → (th.run t fuel).2.2.2 = none) := by
   intro fuel
@@ -364,7 +375,7 @@ theorem runAll_spec (d : Dialect) (db : Db) (Q : List (SubId × Cpl)) (t : Time)
     ∀ (cands : List (Thread × Bool)), TidsDistinct (cands.map (·.1.tid)) →
       (∀ c ∈ cands, c.2 = false → TInv d db P Q t c.1) → (∀ c ∈ cands, c.2 = true → Runnable d db P Q t c.1) →
       (∀ e ∈ (runAll t cands).2.1, e.isAssert = false) ∧
-      (∀ e ∈ (runAll t cands).2.2.1, (∃ c ∈ cands, e.1.tid = c.1.tid) ∧ ∀ tx, e.2 = .store tx → KOk tx) ∧
+      (∀ e ∈ (runAll t cands).2.2.1, (∃ c ∈ cands, e.1.tid = c.1.tid) ∧ ∀ tx, e.2 = .store tx → KN tx) ∧
       (∀ x ∈ (runAll t cands).1, ∃ c ∈ cands, x.tid = c.1.tid) ∧
       TidsDistinct ((runAll t cands).1.map (·.tid)) ∧
       ((runAll t cands).2.2.2 = none → ∀ x ∈ (runAll t cands).1, TInv d db (P ++ (runAll t cands).2.2.1) Q t x) ∧
@@ -615,11 +626,11 @@ def TickOk (clk : Time) (s : Sys) (t : Time) : Prop :=
 structure KInv (d : Dialect) (clk : Time) (s : Sys) : Prop where
   g : s.g = defs d
   keys : KeysX s.db
-  pendK : ∀ e ∈ s.pending, ∀ tx, e.2 = .store tx → KOk tx
+  pendK : ∀ e ∈ s.pending, ∀ tx, e.2 = .store tx → KN tx
   halted : s.halted = none
   threads : s.halted = none → ∀ th ∈ s.threads, TInv d s.db s.pending s.cq clk th
   distinct : s.halted = none → TidsDistinct (s.threads.map (·.tid))
-  apiQ : ∀ q ∈ s.apiQ, ReqOk d s.env q.2
+  apiQ : ∀ q ∈ s.apiQ, ReqOk d s.env q.2 ∧ q.2.StateOk
 
 theorem startBg_new (env : Env) (en dr : Bool) (live : List Thread) (t : Time) :
     ∀ (bs : List BgState) (cnt : Nat), ∀ th ∈ (startBg env en dr live t bs cnt).2.1,
@@ -687,9 +698,9 @@ theorem kinv_tick (d : Dialect) (s : Sys) (clk t : Time) (hbg : BgOk d s.env) (h
       have hst : Static d th := by
         rcases List.mem_append.mp hth with hb | hr
         · obtain ⟨tid, k, rfl⟩ := startBg_new _ _ _ _ _ _ _ th hb
-          exact ⟨fun t' lo now hle => hbg k t' lo now hle, fun t' => ak_bg s.env k t', (fun hb => by cases hb), fun t' => dp_bg s.env k t', fun t' => qk_bg s.env k t'⟩
+          exact ⟨fun t' lo now hle => hbg k t' lo now hle, fun t' => kn_bg s.env k t', (fun hb => by cases hb), fun t' => dp_bg s.env k t', fun t' => qk_bg s.env k t'⟩
         · obtain ⟨q, hq, rfl⟩ := (startReqs_new _ _ _ _).1 th hr
-          exact ⟨fun t' lo now _ => h.apiQ q (List.mem_of_mem_take hq) t t' lo now, fun t' => ak_req s.env q.2 t t', fun _ t' => rs_req s.env q.2 t t', fun t' => dp_req s.env q.2 t t', fun t' => qk_req s.env q.2 t t'⟩
+          exact ⟨fun t' lo now _ => (h.apiQ q (List.mem_of_mem_take hq)).1 t t' lo now, fun t' => kn_req s.env q.2 t t' (h.apiQ q (List.mem_of_mem_take hq)).2, fun _ t' => rs_req s.env q.2 t t', fun t' => dp_req s.env q.2 t t', fun t' => qk_req s.env q.2 t t'⟩
       have hco : th.co = .retry ∧ True := by
         rcases List.mem_append.mp hth with hb | hr
         · obtain ⟨tid, k, rfl⟩ := startBg_new _ _ _ _ _ _ _ th hb; exact ⟨rfl, trivial⟩
@@ -844,7 +855,7 @@ theorem promMono_execTx (d : Dialect) (db db' : Db) (cs : List Cmd) (rs : List R
   execTx_lift (defs d) PromMono PromMono.refl (fun _ _ _ => PromMono.trans) (fun db db' c r hx => promMono_exec d db db' c r hx) cs db db' rs h
 
 theorem completions_spec (d : Dialect) (s : Sys) (hg : s.g = defs d) (hk : KeysX s.db)
-    (hp : ∀ e ∈ s.pending, ∀ tx, e.2 = .store tx → KOk tx) (items : List (SubId × FailMode)) :
+    (hp : ∀ e ∈ s.pending, ∀ tx, e.2 = .store tx → KN tx) (items : List (SubId × FailMode)) :
     KeysX (C06.batchOf s items).1 ∧ PromMono s.db (C06.batchOf s items).1 ∧
     ∀ e ∈ C06.completionsOf s items, (∃ tx, (e.1, Subm.store tx) ∈ s.pending) ∧
       (e.2 = .err ∨ ∃ rs tx, e.2 = .store rs ∧ (e.1, Subm.store tx) ∈ s.pending ∧
@@ -859,7 +870,7 @@ theorem completions_spec (d : Dialect) (s : Sys) (hg : s.g = defs d) (hk : KeysX
     cases hf : C06.pendingTx s it.1 with
     | none => simp [hf] at h1
     | some tx => exact ⟨tx, pendingTx_mem s it.1 tx hf⟩
-  have htxK : ∀ tx ∈ C06.txsOf s items, KOk tx := by
+  have htxK : ∀ tx ∈ C06.txsOf s items, KN tx := by
     intro tx htx
     unfold C06.txsOf at htx
     simp only [List.mem_filterMap] at htx
@@ -869,8 +880,8 @@ theorem completions_spec (d : Dialect) (s : Sys) (hg : s.g = defs d) (hk : KeysX
   have hbatch : ∀ db2 rss2, s.db.execTxs (defs d) (C06.txsOf s items) = .ok (db2, rss2) →
       KeysX db2 ∧ ∀ (i : Nat) tx rs, (C06.txsOf s items)[i]? = some tx → rss2[i]? = some rs →
         ∃ dbi dbi', PromMono s.db dbi ∧ KeysX dbi ∧ dbi.execTx (defs d) tx = .ok (dbi', rs) ∧ PromMono dbi' db2 :=
-    fun db2 rss2 hx => execTxs_each_inv (defs d) PromMono PromMono.refl (fun _ _ _ => PromMono.trans) KeysX KOk
-      (promMono_execTx d) (fun db db' cs rs hi hc hx => keysX_execTx d cs db db' rs hi hc hx) _ _ _ _ hk htxK hx
+    fun db2 rss2 hx => execTxs_each_inv (defs d) PromMono PromMono.refl (fun _ _ _ => PromMono.trans) KeysX KN
+      (promMono_execTx d) (fun db db' cs rs hi hc hx => keysX_execTx d cs db db' rs hi hc.1 hx) _ _ _ _ hk htxK hx
   unfold C06.completionsOf
   cases hb : C06.batchOf s items with
   | mk db' r =>
@@ -1007,7 +1018,7 @@ theorem step_env (s : Sys) (c : Choice) : (s.step c).1.env = s.env := by
     validated request in Properties/C13.lean); the clock does not step back; thread ids started by a tick are fresh;
     a router / sender completion is one of that subsystem (the harness feeds what the real subsystem answered) -/
 def StepOk (d : Dialect) (clk : Time) (s : Sys) : Choice → Prop
-  | .submit _ r => ReqOk d s.env r
+  | .submit _ r => ReqOk d s.env r ∧ r.StateOk
   | .tick t => TickOk clk s t
   | .complete id c => ∀ e ∈ s.pending, e.1 = id → KindOk e.2 c
   | _ => True
@@ -1071,6 +1082,71 @@ theorem run_no_assert (d : Dialect) : ∀ (cs : List Choice) (s : Sys) (clk : Ti
     rcases he with he | he
     · exact h2 e he
     · exact i1 e he
+
+/-- a store batch of the kernel never trips an assertion of the store (which, in the Go code, would panic the store's
+    worker goroutine): every pending transaction has the shape `NA` -/
+theorem execStore_no_assert (d : Dialect) (s : Sys) (clk : Time) (items : List (SubId × FailMode)) (h : KInv d clk s) (m : String) :
+    (s.execStore items).2 ≠ some (.assertion m) := by
+  rw [C06.execStore_eq]
+  simp only
+  have htx : ∀ tx ∈ C06.txsOf s items, NA tx := by
+    intro tx htx
+    unfold C06.txsOf at htx
+    simp only [List.mem_filterMap] at htx
+    obtain ⟨it, _, hf⟩ := htx
+    exact (h.pendK _ (pendingTx_mem s it.1 tx hf) tx rfl).2
+  have hb : ∀ e, (C06.batchOf s items).2 = .error e → e ≠ .assertion m := by
+    intro e he
+    unfold C06.batchOf at he
+    split at he
+    · cases he
+    · unfold Db.execBatch at he
+      rw [h.g] at he
+      cases hx : s.db.execTxs (defs d) (C06.txsOf s items) with
+      | ok p => simp [hx] at he
+      | error e' =>
+        simp only [hx] at he
+        injection he with he
+        intro hh
+        exact execTxs_no_assert (defs d) _ s.db htx m (by rw [hx, he, hh])
+  cases hr : (C06.batchOf s items).2 with
+  | ok rss => simp
+  | error e =>
+    simp only
+    intro hh
+    injection hh with hh
+    exact hb e hr hh
+
+/-- the store errors reported along a run -/
+def Sys.runErrs : Sys → List Choice → List StoreErr
+  | _, [] => []
+  | s, c :: cs =>
+    (match c with
+      | .execStore items => (match (s.execStore items).2 with | some e => [e] | none => [])
+      | _ => []) ++ Sys.runErrs (s.step c).1 cs
+
+theorem run_store_no_assert (d : Dialect) : ∀ (cs : List Choice) (s : Sys) (clk : Time), BgOk d s.env → KInv d clk s → RunOk d clk s cs →
+    ∀ e ∈ s.runErrs cs, ∀ m, e ≠ .assertion m := by
+  intro cs
+  induction cs with
+  | nil => intro s clk _ _ _ e he; cases he
+  | cons c cs ih =>
+    intro s clk hbg h hok e he m
+    obtain ⟨h1, _⟩ := kinv_step d s clk c hbg h hok.1
+    simp only [Sys.runErrs, List.mem_append] at he
+    rcases he with he | he
+    · cases c with
+      | execStore items =>
+        simp only at he
+        cases hx : (s.execStore items).2 with
+        | none => simp [hx] at he
+        | some e' =>
+          simp only [hx, List.mem_singleton] at he
+          subst he
+          intro hh
+          exact execStore_no_assert d s clk items h m (by rw [hx, hh])
+      | _ => simp at he
+    · exact ih (s.step c).1 (clkAfter clk c) (by rw [step_env]; exact hbg) h1 hok.2 e he m
 
 /-- **no run ever halts**: neither on an assertion nor by exhausting the per-thread fuel of the model -/
 theorem run_never_halts (d : Dialect) (cs : List Choice) (s : Sys) (clk : Time) (hbg : BgOk d s.env) (h : KInv d clk s)
